@@ -135,6 +135,14 @@ def main(argv=None):
                             md = r.modes.get(f.owner)
                             if md in ('contract_only', 'external'): soft.append((name, f.owner, 'contract-only verification of the rewritten function failed: ' + f.ident()))
                             else: failures.append((name, f))
+        # a function on this property's path that is reported as not verified, with every failed clause attributed to other properties (e.g. a functional loop
+        # invariant failed and this property is safety-only on the function): the clauses of this property were checked *under* the failed ones, so they are not
+        # established - outside the verifier's reach for this property, the bounded stand-in decides
+        for short, st in r.fn_stats.items():
+            if st.get('success') is False and pid in g.props_of(short):
+                if not any(f.owner == short for (n_, f) in failures if n_ == name) and not any(s_[1] == short for s_ in soft):
+                    others = [f.ident()[:80] for f in r.failures if f.owner == short][:2]
+                    soft.append((name, short, 'the function is not verified (failed clauses carry other properties: %s), so what it establishes for this property is not established either' % '; '.join(others)))
         for (fname, k_, props_) in g.missing:
             if pid in props_: soft.append((name, k_, 'contracted function no longer exists'))
         if g.new_constructs:
